@@ -1,5 +1,5 @@
 /-
-Bounded number of scheduling rounds (C03): under FIFO delivery the controller loop of
+Bounded number of scheduling rounds (C03): for ANY order and batching of events the controller loop of
 `controller.impl.run` performs at most `roundBound j` iterations (`sB_rounds_bounded`).
 
 Proof: the potential `sB_phi` (SchedBoundA/B) is never increased by a step and is decreased by every
@@ -26,25 +26,25 @@ def sB_paidNext (paid : Bool) (x' : SysX) : StepX → Bool
   | .base .endFlush => false
   | _ => paid
 
-/-- FIFO executions together with the ghost bit -/
+/-- executions (any event order) together with the ghost bit -/
 inductive sB_Run (f : Sem) (j : Job) (cl : Cluster) (cm : Comps) : SysX → Bool → Prop
   | init : sB_Run f j cl cm (SysX.init j cl cm) true
-  | step (x x' : SysX) (st : StepX) (paid : Bool) : sB_Run f j cl cm x paid → fifoStep x st →
+  | step (x x' : SysX) (st : StepX) (paid : Bool) : sB_Run f j cl cm x paid →
       stepX f j cl cm x st = some x' → sB_Run f j cl cm x' (sB_paidNext paid x' st)
 
 theorem sB_run_of_reachable (f : Sem) (j : Job) (cl : Cluster) (cm : Comps) (x : SysX)
-    (hr : ReachableFifo f j cl cm x) : ∃ paid, sB_Run f j cl cm x paid := by
+    (hr : ReachableX f j cl cm x) : ∃ paid, sB_Run f j cl cm x paid := by
   induction hr with
   | init => exact ⟨true, sB_Run.init⟩
-  | step x x' st _ hff hs ih =>
+  | step x x' st _ hs ih =>
     obtain ⟨paid, hp⟩ := ih
-    exact ⟨_, sB_Run.step x x' st paid hp hff hs⟩
+    exact ⟨_, sB_Run.step x x' st paid hp hs⟩
 
 theorem sB_reachable_of_run (f : Sem) (j : Job) (cl : Cluster) (cm : Comps) (x : SysX) (paid : Bool)
-    (hr : sB_Run f j cl cm x paid) : ReachableFifo f j cl cm x := by
+    (hr : sB_Run f j cl cm x paid) : ReachableX f j cl cm x := by
   induction hr with
-  | init => exact ReachableFifo.init
-  | step x x' st paid _ hff hs ih => exact ReachableFifo.step x x' st ih hff hs
+  | init => exact ReachableX.init
+  | step x x' st paid _ hs ih => exact ReachableX.step x x' st ih hs
 
 /-! ### which base steps are enabled in which phase -/
 
@@ -129,7 +129,7 @@ theorem sB_unpaid_sched (f : Sem) (j : Job) (cl : Cluster) (cm : Comps) (x x' : 
 
 /-- base steps other than `assign`, `recv`, `endFlush` preserve the unpaid invariant -/
 theorem sB_unpaid_base (f : Sem) (j : Job) (cl : Cluster) (cm : Comps) (wf : WF j cl) (wfc : WFC j cm)
-    (feas : Feasible j cl) (x x' : SysX) (bst : Step) (hr : ReachableFifo f j cl cm x)
+    (feas : Feasible j cl) (x x' : SysX) (bst : Step) (hr : ReachableX f j cl cm x)
     (hU : sB_Unpaid j cl cm x) (hs : stepX f j cl cm x (.base bst) = some x')
     (hna : ∀ a, bst ≠ .assign a) (hnr : ∀ evs, bst ≠ .recv evs) (hnf : bst ≠ .endFlush) :
     sB_Unpaid j cl cm x' := by
@@ -207,9 +207,9 @@ theorem sB_inv_run (f : Sem) (j : Job) (cl : Cluster) (cm : Comps) (wf : WF j cl
     simp only [SysX.init, if_true]
     have h0 : (Sys.init j cl).rounds = 0 := rfl
     omega
-  | step x x' st paid hrun hff hs ih =>
+  | step x x' st paid hrun hs ih =>
     have hrf := sB_reachable_of_run f j cl cm x paid hrun
-    have hX := invX_reachable f j cl cm wf wfc x (sF_reachableFifo_X f j cl cm x hrf)
+    have hX := invX_reachable f j cl cm wf wfc x hrf
     have hbound := ih.bound
     -- scheduler-only steps
     have sched : ∀ (hsch : sS2_schedOnly st = true) (hpn : sB_paidNext paid x' st = paid),
@@ -291,10 +291,10 @@ theorem sB_inv_run (f : Sem) (j : Job) (cl : Cluster) (cm : Comps) (wf : WF j cl
             | true => exact Or.inl (by rw [← hb]; simp [haw])
             | false => exact Or.inr (Or.inl (by rw [← hb]; simp [haw]))
 
-/-- **Bounded number of scheduling rounds (C03).** Under FIFO delivery the `while` loop of
+/-- **Bounded number of scheduling rounds (C03).** For ANY order and batching of events the `while` loop of
 `controller.impl.run` is iterated at most `roundBound j` times — a bound that depends on the job only. -/
 theorem sB_rounds_bounded (f : Sem) (j : Job) (cl : Cluster) (cm : Comps) (wf : WF j cl) (wfc : WFC j cm)
-    (feas : Feasible j cl) (x : SysX) (hr : ReachableFifo f j cl cm x) : x.sys.rounds ≤ roundBound j := by
+    (feas : Feasible j cl) (x : SysX) (hr : ReachableX f j cl cm x) : x.sys.rounds ≤ roundBound j := by
   obtain ⟨paid, hrun⟩ := sB_run_of_reachable f j cl cm x hr
   have := (sB_inv_run f j cl cm wf wfc feas x paid hrun).bound
   omega
